@@ -521,7 +521,7 @@ static Plan gen_plan(uint64_t runseed) {
     p.locale = pick_locale(rp, true);
     p.tasks.clear();
     int c = rp.range(0, 99);
-    int nt = c < 45 ? 2 : c < 70 ? 3 : c < 85 ? 4 : c < 95 ? rp.range(5, 8) : rp.range(9, 16);
+    int nt = c < 35 ? 2 : c < 55 ? 3 : c < 70 ? 4 : c < 85 ? rp.range(5, 8) : rp.range(9, 16);   // the statement speaks of 8-16 threads; two actors find most bugs
     // shared read-only objects created before the tasks start
     {
       Op a; a.id = p.next_id++; a.kind = OK_CA_INIT; a.i[0] = rp.range(2, 6); p.setup.push_back(a);
@@ -1110,9 +1110,9 @@ int main(int argc, char** argv) {
     if (O.batch == "enum") enum_instance(runseed, i);
     else if (O.batch == "strata") {
       if (g_strata.empty()) break;
-      if (O.tier == "thorough" && i >= (long)g_strata.size()) break;
+      if (O.tier == "thorough" && i >= 16 * (long)g_strata.size()) break;   // every stratum 16 times, each with other continuous arguments
       const Stratum& s = g_strata[(size_t)((uint64_t)i * 2654435761ULL % g_strata.size())];
-      one_run(stratum_plan(O.tier == "thorough" ? g_strata[i] : s, runseed), -1);
+      one_run(stratum_plan(O.tier == "thorough" ? g_strata[(size_t)i % g_strata.size()] : s, runseed), -1);
     } else {
       Plan p = gen_plan(runseed);
       one_run(p, i);
